@@ -10,7 +10,7 @@ cp /repo/go.sum harness/go.sum
 ./harness/bin/facts /repo > coq/gen/Consts.v.new
 if ! cmp -s coq/gen/Consts.v.new coq/gen/Consts.v; then mv coq/gen/Consts.v.new coq/gen/Consts.v; else rm coq/gen/Consts.v.new; fi
 cd coq
-{ echo "-Q . WS"; echo "-arg -w -arg -notation-overridden,-deprecated-syntactic-definition,-deprecated-hint-without-locality,-deprecated-instance-without-locality"; for d in gen Base Spec Model Proofs Cases Props; do ls $d/*.v 2>/dev/null | sort; done; } > _CoqProject.new
+{ echo "-Q . WS"; echo "-arg -w -arg -notation-overridden,-deprecated-syntactic-definition,-deprecated-hint-without-locality,-deprecated-instance-without-locality"; for d in gen Base Spec Model Proofs Cases Props Tests; do ls $d/*.v 2>/dev/null | sort; done; } > _CoqProject.new
 if ! cmp -s _CoqProject.new _CoqProject; then mv _CoqProject.new _CoqProject; else rm _CoqProject.new; fi
 coq_makefile -f _CoqProject -o Makefile
 timeout 3000 make -j16
